@@ -164,9 +164,13 @@ def r3(ctx):
         outer = inner.parent if isinstance(inner, ast.For) else None
         ok = isinstance(inner, ast.For) and isinstance(outer, ast.For)
         if ok:
-            ivar = u(outer.target.elts[0]) if isinstance(outer.target, ast.Tuple) else u(outer.target)
             rng = inner.iter
-            ok = u(outer.iter) == "enumerate(cuts[:-1])" and isinstance(rng, ast.Call) and u(rng.func) == "range" and [u(a) for a in rng.args] == ["cuts[%s]" % ivar, "cuts[%s + 1]" % ivar] and u(inner.target) == "pos" and u(st[0].value) == "accessible_pos[cuts[%s]]" % ivar
+            ok = isinstance(rng, ast.Call) and u(rng.func) == "range" and len(rng.args) == 2 and u(inner.target) == "pos"
+            if ok:
+                lo, hi = u(rng.args[0]), u(rng.args[1])
+                ivar = u(outer.target.elts[0]) if isinstance(outer.target, ast.Tuple) else u(outer.target)
+                consecutive = (u(outer.iter) in ("enumerate(cuts[:-1])", "range(len(cuts) - 1)") and (lo, hi) == ("cuts[%s]" % ivar, "cuts[%s + 1]" % ivar)) or (u(outer.iter) in ("zip(cuts[:-1], cuts[1:])", "zip(cuts, cuts[1:])", "pairwise(cuts)", "itertools.pairwise(cuts)") and isinstance(outer.target, ast.Tuple) and [u(t) for t in outer.target.elts] == [lo, hi])
+                ok = consecutive and u(st[0].value) == "accessible_pos[%s]" % lo
     ctx.ob(psi.qual, "component-is-first-variant-of-its-interval", ok, psi.loc(st[0].stmt) if st else psi.loc(), "components[accessible_pos[pos]] = accessible_pos[cuts[i]] for pos in range(cuts[i], cuts[i+1])" if ok else "the interval -> component assignment changed")
     cc = [n for n in walk_function(psi.node) if isinstance(n, ast.Assign) and isinstance(n.value, ast.Call) and u(n.value.func) == "compute_cut_positions"]
     ok = len(cc) == 1 and u(cc[0].targets[0].elts[0]) == "cuts" and u(cc[0].value.args[0]) == "result.breakpoints"
